@@ -57,7 +57,7 @@ func main() {
 		{"gen", []string{"known", "unknown"}},
 		{"support", []string{"v4", "v6", "both", "none"}},
 		{"registrant", []string{"v4", "v4mapped", "v6", "absent", "5bytes"}},
-		{"covert", []string{"permitted", "blocklisted", "malformed", "name-blocked", "name-permitted"}},
+		{"covert", []string{"permitted", "blocklisted", "malformed", "name-blocked", "name-permitted", "name-denied"}},
 		{"source", []string{"Detector", "API", "BidirectionalAPI", "DetectorPrescan", "DNS", "Unspecified"}},
 		{"prescanned", []string{"F", "T"}},
 		{"libver", []string{"4", "0", "2"}},
@@ -73,7 +73,7 @@ func main() {
 	if !thorough {
 		// quick: reduced alphabets on three dimensions (full product otherwise)
 		dims[0].vals = []string{"32", "absent"}
-		dims[6].vals = []string{"permitted", "blocklisted", "name-blocked"}
+		dims[6].vals = []string{"permitted", "blocklisted", "name-blocked", "name-denied"}
 		dims[9].vals = []string{"4"}
 		dims[7].vals = []string{"Detector", "API", "DetectorPrescan", "Unspecified"}
 	}
@@ -117,7 +117,7 @@ func main() {
 		id := idb.String()
 		// ---- station
 		conf := &lib.RegConfig{EnableIPv4: v["st4"] == "on", EnableIPv6: v["st6"] == "on", EnableShareOverAPI: v["share"] == "on", PreshareEndpoint: "http://peer.invalid/register",
-			CovertBlocklistSubnets: []string{"10.0.0.0/8", "127.0.0.0/8"}}
+			CovertBlocklistSubnets: []string{"10.0.0.0/8", "127.0.0.0/8"}, CovertBlocklistDomains: []string{"^denied\\.example$"}}
 		if v["phblock"] == "covers" {
 			conf.PhantomBlocklist = []string{"192.122.190.0/24", "2001:48a8:687f:1::/64"}
 		}
@@ -134,6 +134,33 @@ func main() {
 			return false, fmt.Errorf("%w %v", liveness.NotLive, 750*time.Millisecond)
 		}}
 		rm := vfix.Manager(conf, sel, tester, vfix.Transports{Min: true, Prefix: true}, nil)
+		viaReload := e.Out.Evaluations%8 == 3
+		if viaReload {
+			// the policy lists of this case reach the station through a configuration reload (SIGHUP) instead of at start-up:
+			// it starts with the same settings and empty lists, other clients register every covert of the alphabet (all
+			// admitted under the empty lists), then the lists are loaded. Admission of the message under test must be what
+			// it is on a station started with the lists (same reference predicate).
+			open := &lib.RegConfig{EnableIPv4: conf.EnableIPv4, EnableIPv6: conf.EnableIPv6, EnableShareOverAPI: conf.EnableShareOverAPI, PreshareEndpoint: conf.PreshareEndpoint}
+			lib.VerifParseBlocklists(open)
+			rm = vfix.Manager(open, sel, &vfix.Tester{}, vfix.Transports{Min: true, Prefix: true}, nil)
+			rm.LivenessTester = tester
+			var sink []lib.VerifDetectorMsg
+			rm.VerifCaptureDetector(&sink) // (replaced by the case's own recorder below)
+			for i, cv := range []string{"93.184.216.34:443", "10.0.0.9:443", "blocked.example:443", "fine.example:443", "denied.example:443"} {
+				wm := vfix.Msg{Secret: vfix.Secret(20 + i), Transport: pb.TransportType_Min, V4: true, V6: true, Gen: 1, LibVer: 4, Covert: cv, Source: pb.RegistrationSource_API, Addr: []byte{203, 0, 113, byte(60 + i)}, Prescan: true}
+				venum.Guard(func() {
+					if rs, err := rm.VerifParseRegMessage(wm.Bytes()); err == nil {
+						for _, r := range rs {
+							if r != nil {
+								rm.VerifIngest(r)
+							}
+						}
+					}
+				})
+			}
+			venum.Guard(func() { rm.OnReload(conf) })
+			tester.Calls = nil
+		}
 		var anns []lib.VerifDetectorMsg
 		rm.VerifCaptureDetector(&anns)
 		shares = shares[:0]
@@ -180,6 +207,9 @@ func main() {
 				c2s.CovertAddress = proto.String("blocked.example:443")
 			case "name-permitted":
 				c2s.CovertAddress = proto.String("fine.example:443")
+			case "name-denied":
+				// resolves to a permitted address; refused by the domain pattern
+				c2s.CovertAddress = proto.String("denied.example:443")
 			}
 			if v["prescanned"] == "T" {
 				c2s.Flags = &pb.RegistrationFlags{Prescanned: proto.Bool(true)}
